@@ -737,6 +737,58 @@ type RawLink struct {
 	Idx  int
 	Link *simnet.Link
 	FC   *faultConn
+	// CutA2BAt cuts the link once this many bytes have travelled from the client
+	// to the broker (-1 = off): "the packet went out, then the connection died"
+	CutA2BAt int
+}
+
+// FailBrokerSend makes the broker's k-th Send from now on this connection fail,
+// before the packet leaves or (post) after it has reached the client.
+func (rl *RawLink) FailBrokerSend(k int, post bool) {
+	rl.FC.failSendN, rl.FC.failSendPost = rl.FC.sends+k, post
+}
+
+// FailBrokerRecv makes the broker's k-th Receive from now fail (packet dropped).
+func (rl *RawLink) FailBrokerRecv(k int) { rl.FC.failRecvN = rl.FC.recvs + k }
+
+// rawPending reports whether a pipe of a raw link has something to do.
+func (w *World) rawPending(rl *RawLink, p *simnet.Pipe) bool {
+	if p.Broken() {
+		return false
+	}
+	if p.InFlight() > 0 {
+		return true
+	}
+	if p == rl.Link.B2A && rl.FC.cutAtDeliv >= 0 && p.Delivered >= rl.FC.cutAtDeliv {
+		return true
+	}
+	return p == rl.Link.A2B && rl.CutA2BAt >= 0 && p.Delivered >= rl.CutA2BAt
+}
+
+// deliverRaw moves up to n bytes on one pipe of a raw link, honouring the armed
+// cut positions of both directions.
+func (w *World) deliverRaw(rl *RawLink, p *simnet.Pipe, n int) {
+	cutAt := -1
+	if p == rl.Link.B2A {
+		cutAt = rl.FC.cutAtDeliv
+	} else {
+		cutAt = rl.CutA2BAt
+	}
+	if cutAt >= 0 && p.Delivered+n > cutAt {
+		n = cutAt - p.Delivered
+	}
+	if n > 0 {
+		p.Deliver(n)
+	}
+	if cutAt >= 0 && p.Delivered >= cutAt && !p.Broken() {
+		if p == rl.Link.B2A {
+			rl.FC.cutAtDeliv = -1
+		} else {
+			rl.CutA2BAt = -1
+		}
+		w.ev(&Ev{K: EvFault, C: rl.Idx, S: "cut after the packet was delivered"})
+		rl.Link.Cut()
+	}
 }
 
 // DialIn creates a link, gives its B end to the engine and returns it; the
@@ -745,7 +797,7 @@ func (w *World) DialIn() *RawLink {
 	idx := len(w.Peers) + len(w.Raw) + 1000
 	link := simnet.NewLink(idx)
 	fc := &faultConn{Conn: transport.NewNetConn(link.B), w: w, idx: idx, link: link, cutAtDeliv: -1}
-	rl := &RawLink{Idx: idx, Link: link, FC: fc}
+	rl := &RawLink{Idx: idx, Link: link, FC: fc, CutA2BAt: -1}
 	w.Raw = append(w.Raw, rl)
 	if w.Server.done {
 		_ = fc.Close()
@@ -777,8 +829,8 @@ func (w *World) NetActions() []func() {
 		rl := rl
 		for _, p := range []*simnet.Pipe{rl.Link.A2B, rl.Link.B2A} {
 			p := p
-			if n := p.InFlight(); n > 0 && !p.Broken() {
-				out = append(out, func() { p.Deliver(w.chunk(n)) })
+			if w.rawPending(rl, p) {
+				out = append(out, func() { w.deliverRaw(rl, p, w.chunk(p.InFlight())) })
 			}
 			if p.FinPending() {
 				out = append(out, func() { p.DeliverFIN() })
@@ -874,8 +926,8 @@ func (w *World) progress(releaseAcks bool) bool {
 	}
 	for _, rl := range w.Raw {
 		for _, p := range []*simnet.Pipe{rl.Link.A2B, rl.Link.B2A} {
-			if n := p.InFlight(); n > 0 && !p.Broken() {
-				p.Deliver(w.chunk(n))
+			if w.rawPending(rl, p) {
+				w.deliverRaw(rl, p, w.chunk(p.InFlight()))
 				did = true
 			}
 			if p.FinPending() {
